@@ -47,29 +47,40 @@ package proxy
 //@   loop 1 invariant bestHost != nil ==> (exists(k, 0, #i, pool[k] == bestHost) && bestHost.Available() && bestHost.Conns == leastConn)
 //@   loop 1 invariant forall(k, 0, #i, pool[k].Available() ==> leastConn <= pool[k].Conns)
 
+//@ define hstart(pool HostPool, s string) int = int(hash(s) % uint32(len(pool)))
 //@ func hostByHashing
-//@   requires 2 <= len(pool) && len(pool) < 2147483648
+//@   requires 1 <= len(pool) && len(pool) < 2147483648
 //@   requires forall(k, 0, len(pool), pool[k] != nil)
 //@   ensures [returns_available] result == nil || (exists(k, 0, len(pool), pool[k] == result) && result.Available())
-//@   ensures [first_probe] result == nil ==> !pool[int(hash(s) % uint32(len(pool)))].Available()
+//@   ensures [first_probe] pool[hstart(pool, s)].Available() ==> result == pool[hstart(pool, s)]
 //@   ensures [finds_available] result == nil ==> forall(k, 0, len(pool), !pool[k].Available())
-//@   loop 1 invariant i <= poolLen && poolLen == uint32(len(pool)) && index < 4294967296
-//@   loop 1 invariant i >= 1 ==> !pool[int(hash(s) % uint32(len(pool)))].Available()
-//@   loop 1 invariant i == 0 ==> index == hash(s) % uint32(len(pool))
+//@   loop 1 invariant i <= poolLen && poolLen == uint32(len(pool)) && index < poolLen
+//@   loop 1 invariant [probe_position] (hstart(pool, s) + int(i) < len(pool) ==> int(index) == hstart(pool, s) + int(i)) && (hstart(pool, s) + int(i) >= len(pool) ==> int(index) == hstart(pool, s) + int(i) - len(pool))
+//@   loop 1 invariant [probed_upper] forall(k, hstart(pool, s), hstart(pool, s) + int(i), k < len(pool) ==> !pool[k].Available())
+//@   loop 1 invariant [probed_wrapped] forall(k, 0, hstart(pool, s) + int(i) - len(pool), !pool[k].Available())
 //@   loop 1 decreases poolLen - i
 
+//@ define rnext(r0 uint32) int = int(r0 + 1)
 //@ func (*RoundRobin).Select
 //@   requires r != nil && 1 <= len(pool) && len(pool) < 2147483648
 //@   requires forall(k, 0, len(pool), pool[k] != nil)
 //@   modifies RoundRobin.robin
 //@   ensures [lock_balance] held(r.mutex) == old(held(r.mutex))
 //@   ensures [returns_available] result == nil || (exists(k, 0, len(pool), pool[k] == result) && result.Available())
-//@   ensures [next_after_counter] result == nil ==> !pool[int((old(r.robin) + 1) % uint32(len(pool)))].Available()
 //@   ensures [finds_available] result == nil ==> forall(k, 0, len(pool), !pool[k].Available())
+//@   ensures [selected_is_counter] result != nil ==> (int(r.robin) < len(pool) && result == pool[int(r.robin)])
+//@   ensures [next_in_cyclic_order] (result != nil && rnext(old(r.robin)) < len(pool) && int(r.robin) >= rnext(old(r.robin))) ==> forall(k, rnext(old(r.robin)), int(r.robin), !pool[k].Available())
+//@   ensures [next_in_cyclic_order_wrapped] (result != nil && rnext(old(r.robin)) < len(pool) && int(r.robin) < rnext(old(r.robin))) ==> (forall(k, rnext(old(r.robin)), len(pool), !pool[k].Available()) && forall(k, 0, int(r.robin), !pool[k].Available()))
+//@   ensures [next_from_zero] (result != nil && rnext(old(r.robin)) >= len(pool)) ==> forall(k, 0, int(r.robin), !pool[k].Available())
 //@   loop 1 invariant i <= poolLen
 //@   loop 1 invariant poolLen == uint32(len(pool))
-//@   loop 1 invariant r.robin == old(r.robin) + i
-//@   loop 1 invariant i >= 1 ==> !pool[int((old(r.robin) + 1) % uint32(len(pool)))].Available()
+//@   loop 1 invariant i == 0 ==> r.robin == old(r.robin)
+//@   loop 1 invariant i >= 1 ==> r.robin < poolLen
+//@   loop 1 invariant [position] (i >= 1 && rnext(old(r.robin)) < len(pool)) ==> ((rnext(old(r.robin)) + int(i) - 1 < len(pool) ==> int(r.robin) == rnext(old(r.robin)) + int(i) - 1) && (rnext(old(r.robin)) + int(i) - 1 >= len(pool) ==> int(r.robin) == rnext(old(r.robin)) + int(i) - 1 - len(pool)))
+//@   loop 1 invariant [position_from_zero] (i >= 1 && rnext(old(r.robin)) >= len(pool)) ==> int(r.robin) == int(i) - 1
+//@   loop 1 invariant [probed_upper] rnext(old(r.robin)) < len(pool) ==> forall(k, rnext(old(r.robin)), rnext(old(r.robin)) + int(i), k < len(pool) ==> !pool[k].Available())
+//@   loop 1 invariant [probed_wrapped] rnext(old(r.robin)) < len(pool) ==> forall(k, 0, rnext(old(r.robin)) + int(i) - len(pool), !pool[k].Available())
+//@   loop 1 invariant [probed_from_zero] rnext(old(r.robin)) >= len(pool) ==> forall(k, 0, int(i), !pool[k].Available())
 //@   loop 1 decreases poolLen - i
 
 //@ unit joining_slash props=C04 filter=`proxy\.singleJoiningSlash$`
